@@ -16,6 +16,40 @@ EXPLANATION = (
 NOT_DECIDED = "routing correctness over histories with channel/request id reuse (run-time values); limits are shared with C08"
 
 
+def stale_response_filter(F, R):
+    # ---- the client-side stale-response filter: every PendingResponse::receive sibling compares the id of the RECEIVED response with its own request id
+    sib = [f_ for f_ in F.find_fns(r'^iceoryx2::pending_response::PendingResponse::<.*>::receive(_custom_payload)?$') if f_.kind != 'closure']
+    for f_ in sib:
+        flav = re.sub(r'^.*PendingResponse::<(.*)>::.*$', lambda m_: 'payload[%s]' % m_.group(1).split(',')[3].strip().strip('[]').rsplit('::', 1)[-1], f_.id) + ('-slice' if ', [' in f_.id else '')
+        key = 'SIBLINGS::%s::%s' % (fnkey(f_), flav)
+        hit = None
+        for b in range(len(f_.blocks)):
+            t = f_.blocks[b]['t']
+            if t[0] != 'switch':
+                continue
+            c_ = sym_nstr(sym(f_, t[1]))
+            m_ = re.match(r'^(ne|eq)\((.*)\.request_id, (.*)\.request_id\)$', c_) or re.match(r'^\((.*)\.request_id (!=|==) (.*)\.request_id\)$', c_)
+            if m_:
+                g_ = [x for x in m_.groups() if x not in ('ne', 'eq', '!=', '==')]
+                hit = (b, g_, c_)
+        if hit is None:
+            R.ob('SIBLINGS', key + '::filters-on-the-received-request_id', False, 'anchor-missing: no request_id comparison', '%s:%s' % (f_.file, f_.line), f_)
+            continue
+        b, g_, c_ = hit
+        recv_side = [x for x in g_ if 'receive_impl(' in x]
+        own_side = [x for x in g_ if 'receive_impl(' not in x and 'self.request' in x]
+        R.ob('SIBLINGS', key + '::filters-on-the-received-request_id', len(recv_side) == 1 and len(own_side) == 1,
+             'compares `%s.request_id` with `%s.request_id`; required: the header of the chunk returned by receive_impl() against self.request\'s header (the only barrier against a stale response in a reused channel)' % (g_[0][:60], g_[1][:60]), f_.term_site(b).where, f_)
+        # Ok(Some(response)) only on the ids-equal arm
+        somes = [a for a in lib.agg_sites(f_, r'core::option::Option$', 'Some')]
+        neq = c_.startswith('ne(') or '!=' in c_
+        tt, ff = lib.bool_switch_arms(f_, b)
+        arm = ff if neq else tt
+        under = [a for a in somes if f_.edge_dominates(b, arm, a.b)]
+        R.ob('ONLY-UNDER', 'ONLY-UNDER::%s::%s::response-returned-only-if-ids-match' % (fnkey(f_), flav), bool(somes) and len(under) == len(somes), '%d of %d `Some(response)` results lie on the ids-equal arm' % (len(under), len(somes)), f_.term_site(b).where, f_)
+    R.floor('PendingResponse::receive siblings', len(sib), 3)
+
+
 def slot_identity(F, R):
     """F23: the server-side response operations address the client by a STORED slot index (connection_id).  Slots are reused for the next
     client and request / channel ids restart at 0 per client, so every such operation must check that the slot still belongs to the client
@@ -151,37 +185,7 @@ def check(F, R, tier):
         R.ob('CONST-ARG', 'CONST-ARG::%s::closes-only-own-state' % fnkey(cc), (e in allowed) and 'CHANNEL_STATE_CLOSED' in n_, 'close CAS `%s` -> %s: the compared value is exactly the caller\'s request id or id|disconnect-hint (%s); a channel that meanwhile belongs to another request (with or without its hint) is left alone' % (e[:120], n_, sorted(allowed)), c.site.where, cc)
     stores = [a for a in cc.atomic_ops() if a.op in ('store', 'swap')]
     R.ob('WHO-MAY-CALL', 'WHO-MAY-CALL::%s::no-unconditional-close' % fnkey(cc), not stores, 'close_channel never stores unconditionally (%d stores)' % len(stores), cc.file, cc)
-    # ---- the client-side stale-response filter: every PendingResponse::receive sibling compares the id of the RECEIVED response with its own request id
-    sib = [f_ for f_ in F.find_fns(r'^iceoryx2::pending_response::PendingResponse::<.*>::receive(_custom_payload)?$') if f_.kind != 'closure']
-    for f_ in sib:
-        flav = re.sub(r'^.*PendingResponse::<(.*)>::.*$', lambda m_: 'payload[%s]' % m_.group(1).split(',')[3].strip().strip('[]').rsplit('::', 1)[-1], f_.id) + ('-slice' if ', [' in f_.id else '')
-        key = 'SIBLINGS::%s::%s' % (fnkey(f_), flav)
-        hit = None
-        for b in range(len(f_.blocks)):
-            t = f_.blocks[b]['t']
-            if t[0] != 'switch':
-                continue
-            c_ = sym_nstr(sym(f_, t[1]))
-            m_ = re.match(r'^(ne|eq)\((.*)\.request_id, (.*)\.request_id\)$', c_) or re.match(r'^\((.*)\.request_id (!=|==) (.*)\.request_id\)$', c_)
-            if m_:
-                g_ = [x for x in m_.groups() if x not in ('ne', 'eq', '!=', '==')]
-                hit = (b, g_, c_)
-        if hit is None:
-            R.ob('SIBLINGS', key + '::filters-on-the-received-request_id', False, 'anchor-missing: no request_id comparison', '%s:%s' % (f_.file, f_.line), f_)
-            continue
-        b, g_, c_ = hit
-        recv_side = [x for x in g_ if 'receive_impl(' in x]
-        own_side = [x for x in g_ if 'receive_impl(' not in x and 'self.request' in x]
-        R.ob('SIBLINGS', key + '::filters-on-the-received-request_id', len(recv_side) == 1 and len(own_side) == 1,
-             'compares `%s.request_id` with `%s.request_id`; required: the header of the chunk returned by receive_impl() against self.request\'s header (the only barrier against a stale response in a reused channel)' % (g_[0][:60], g_[1][:60]), f_.term_site(b).where, f_)
-        # Ok(Some(response)) only on the ids-equal arm
-        somes = [a for a in lib.agg_sites(f_, r'core::option::Option$', 'Some')]
-        neq = c_.startswith('ne(') or '!=' in c_
-        tt, ff = lib.bool_switch_arms(f_, b)
-        arm = ff if neq else tt
-        under = [a for a in somes if f_.edge_dominates(b, arm, a.b)]
-        R.ob('ONLY-UNDER', 'ONLY-UNDER::%s::%s::response-returned-only-if-ids-match' % (fnkey(f_), flav), bool(somes) and len(under) == len(somes), '%d of %d `Some(response)` results lie on the ids-equal arm' % (len(under), len(somes)), f_.term_site(b).where, f_)
-    R.floor('PendingResponse::receive siblings', len(sib), 3)
+    stale_response_filter(F, R)
     # ---- a received request chunk is either handed out (ActiveRequest owns it and releases it on drop) or released at once (F17b)
     for f_ in [x for x in F.find_fns(r'^iceoryx2::port::server::Server::<.*>::receive$') if x.kind != 'closure']:
         rcv = f_.calls(r'Server::<.*>::receive_impl$')
